@@ -165,6 +165,30 @@ pub fn judge_c01(script: &Script, obs: &Observation) -> CaseResult {
             last.insert(*caller, (*seq, i));
         }
     }
+    // ... and across clones: the driver is ONE caller that issues its requests one after another through
+    // whichever clone the script names. A request issued in an earlier script step (the step was settled,
+    // so the request had been handed to the client before the next one was even created) must not reach
+    // the server after one issued in a later step, whichever clones carried them.
+    let mut prev: Option<(u64, usize, usize)> = None;
+    for (i, (_, req, st, _)) in obs.requests.iter().enumerate() {
+        let Some(first) = tokens_of(req).first().cloned() else { continue };
+        let (Some(seq), Some(step)) = (arrival.get(&first), obs.request_steps.get(i)) else { continue };
+        if *st == ReqState::Cancelled {
+            continue;
+        }
+        if let Some((pseq, pstep, pi)) = prev {
+            if *step > pstep && *seq < pseq {
+                r.fail(format!(
+                    "request {i} (issued in step {step} through clone {}) reached the server before request {pi} (issued earlier, in step {pstep}, through clone {}): requests issued one after another by one caller must arrive in that order",
+                    obs.requests[i].0, obs.requests[pi].0
+                ));
+                return r;
+            }
+        }
+        if prev.is_none_or(|(pseq, _, _)| *seq > pseq) {
+            prev = Some((*seq, *step, i));
+        }
+    }
     let nt = r.classes.iter().any(|c| {
         ["requests_pending_at_once", "noidle_crossed_idle_reply", "request_inside_100ms_window", "list_failed_part_way", "idle_reply_split_across_reads"].contains(c)
     }) || (r.classes.contains(&"cancellation") && obs.requests.len() >= 2);
@@ -400,7 +424,7 @@ pub fn systematic_scripts(max_len: usize, seeds: u64) -> impl Iterator<Item = Sc
                 let mut replies = Vec::new();
                 let mut k = 0;
                 let steps = digits.iter().map(|d| atom(*d, &mut k, &mut replies)).collect();
-                Script { sched_seed: seed + 1, seg, replies, steps, max_write: None, picture: None, broken_pipe: true, greeting: None, lazy_events: false, version: None, vectored: false, events_polled_last: false, error_kind: 0, real_ms_per_advance: 0, noise_connection: false, greeting_tail: None, foreign_callers: false }
+                Script { sched_seed: seed + 1, seg, replies, steps, max_write: None, picture: None, broken_pipe: true, greeting: None, lazy_events: false, version: None, vectored: false, events_polled_last: false, error_kind: 0, real_ms_per_advance: 0, noise_connection: false, greeting_tail: None, foreign_callers: false, shutdown_behaviour: 0 }
             })
         })
     })
@@ -451,7 +475,7 @@ fn slow_consumer_part() -> Box<dyn crate::core::Part> {
                             steps.push(Step::Advance(101));
                         }
                     }
-                    Script { sched_seed: seed, seg: sim::SegPattern::Whole, replies, steps, max_write: None, picture: None, broken_pipe: true, greeting: None, lazy_events: true, version: None, vectored: false, events_polled_last: false, error_kind: 0, real_ms_per_advance: 0, noise_connection: false, greeting_tail: None, foreign_callers: false }
+                    Script { sched_seed: seed, seg: sim::SegPattern::Whole, replies, steps, max_write: None, picture: None, broken_pipe: true, greeting: None, lazy_events: true, version: None, vectored: false, events_polled_last: false, error_kind: 0, real_ms_per_advance: 0, noise_connection: false, greeting_tail: None, foreign_callers: false, shutdown_behaviour: 0 }
                 })
                 .boxed()
         }),
